@@ -150,6 +150,10 @@ Obs1(r, R, t, o) ==
                                    ELSE t
             [] o.c \in {"stepIn", "next", "stepOut"} -> IF t.mode = "stopped"
                                    THEN [t EXCEPT !.mode = "stepping", !.pend = [kind |-> o.c, from |-> t.at]]
+                                   ELSE IF t.mode = "running"
+                                   THEN (* a step sent while the machine runs: which thread executed which instruction is not visible in the protocol *)
+                                        (* (a step ignores breakpoints, the free run does not): only the hook log (tier 2) can tell; judging ends here  *)
+                                        [t EXCEPT !.mode = "terminated"]
                                    ELSE t
             [] OTHER -> t)
     [] o.k = "ev" ->
@@ -208,6 +212,8 @@ Ev2(r, R, h, e, n) ==
          IF ~MExecEn(a) THEN Rej(h, n, "m_exec not enabled")
          ELSE IF e.pc # pcNow THEN Rej(h, n, "m_exec: pc differs")      \* (e.state is read just before the instruction, not atomically with this log line: not compared)
          ELSE IF ~MExecRuns(a, DevsOf(r)) THEN Rej(h, n, "m_exec although the state was no longer Running when the runner lock was taken")
+         ELSE IF a.last # Pc(R, a.ix) /\ "StepRacesMachineThread" \notin DevsOf(r)
+              THEN Rej(h, n, "m_exec at a pc the breakpoints were not checked for (a step moved the machine between check and execute)")
          ELSE LET a1 == MExec(R, a, DevsOf(r)) IN
               IF e["end"] # AtEnd(R, a.ix) THEN Rej(h, n, "m_exec: end of test differs")
               ELSE IF e.pc1 # Addr(r, Pc(R, a1.ix)) \/ e.cyc # R[a1.ix].cyc THEN Rej(h, n, "m_exec: successor state differs from DbgCpu!Step")
